@@ -38,6 +38,8 @@ def materialise(world, dirpath, samples, build="hg19", profile_yaml=True, extra=
                                                 absent_contig=bool(extra and extra.get("profile_absent_contig")))
     for name, smp in samples.items():
         reads = W.sample_reads(world, smp)
+        if smp.get("no_neutral_reads"):
+            reads = [r for r in reads if not r[3].startswith("n")]
         if smp.get("paired"):
             reads = W.pair_names(reads, smp.get("phase_seed", 0))
         fn = f"{name}.bam"
